@@ -133,7 +133,8 @@ class Ctx:
         cmd = ["go", "build", "-tags", ",".join(tags), "-overlay", overlay, "-o", out]
         if race:
             cmd.append("-race")
-        cmd += cover_flags(self.modfile())
+        if not extra_overlay_dir:
+            cmd += cover_flags(self.modfile())
         cmd += list(extra_flags) + ["."]
         t = time.time()
         p = sh(cmd, cwd=hdir, timeout=1500, check=False)
@@ -354,7 +355,7 @@ def make_overlay(work):
     files (export shims, build tag verif). Nothing in /repo is modified."""
     rep = {}
     hooks = os.path.join(VERIF, "hooks")
-    for root, _, files in os.walk(hooks):
+    for root, _, files in os.walk(hooks if not os.environ.get("VERIF_HOOKS_MATERIALIZED") else os.devnull):
         for fn in files:
             if fn.endswith(".go"):
                 rel = os.path.relpath(os.path.join(root, fn), hooks)
